@@ -190,6 +190,9 @@ def build_target(target):
     h.update(" ".join([compiler] + [f for f in flags if not f.startswith("-I")] +
                       target.get("libs", []) + target.get("nitro", []) +
                       [str(target.get("fuzz", False))]).encode())
+    for aux in target.get("aux", []):
+        _hash_files([os.path.join(VERIF, aux["src"])], h)
+        h.update(aux["out"].encode())
     key = h.hexdigest()[:24]
     out = os.path.join(CACHE, "bin", key, target["name"])
     if os.path.exists(out):
@@ -214,6 +217,10 @@ def build_target(target):
             cmd = cmd[len(_ccache()):]
         else:
             cmd = cmd[len(_ccache()):]
+        # auxiliary artefacts next to the binary (e.g. tiny shared libraries to dlopen)
+        for aux in target.get("aux", []):
+            _run(["gcc", "-shared", "-fPIC", "-O1", "-o", os.path.join(os.path.dirname(out), aux["out"]),
+                  os.path.join(VERIF, aux["src"])], f"building {aux['out']}")
         _run(cmd, f"building {target['name']}")
         os.replace(tmp, out)
     finally:
